@@ -1,2 +1,146 @@
-"""Checks of the non-engine properties (filled in as they are built)."""
+"""Checks of the non-engine properties: C02 C16 (pots/settlement), C03 C10 (evaluator),
+C08 C17 C18 (seat manager), C09 C19 C20 (regulator), C07 C15 (resume / views)."""
+import json
+import os
+import time
+
+import engine_checks as ec
+import verdict
+import vlib
+from vlib import Inconclusive, log
+
 REGISTRY = {}
+
+
+def generic_mc(work, module, name, constants, invariants=(), properties=(), spec="Spec", view=None, timeout=1800, constraint=None):
+    d = work.sub("mc")
+    vlib.spec_copy(d)
+    cfg = name + ".cfg"
+    vlib.write_cfg(os.path.join(d, cfg), spec=spec, constants=constants, invariants=invariants, properties=properties, view=view,
+                   constraint=constraint)
+    t0 = time.time()
+    rc, out = vlib.tlc(d, module, cfg, workers=vlib.NCPU, timeout=timeout)
+    r = vlib.parse_mc(out)
+    r["wall_s"] = round(time.time() - t0, 1)
+    r["scope"] = dict(constants, module=module, invariants=list(invariants), properties=list(properties))
+    r["cached"] = False
+    if not r["ok"] and not r["violated"]:
+        raise Inconclusive("model checking %s failed: %s" % (name, (r["error"] or "")[-1500:]))
+    if r["violated"]:
+        r["trace_tail"] = out[-5000:]
+    log("[mc] %s: %d distinct / %d generated, ok=%s (%.0fs)" % (name, r["distinct"], r["generated"], r["ok"], r["wall_s"]))
+    return r
+
+
+def mc_summary(mcs):
+    return [{"scope": m["scope"], "distinct_states": m["distinct"], "generated": m["generated"], "holds_in_model": m["ok"],
+             "violated": m.get("violated"), "wall_s": m.get("wall_s")} for m in mcs]
+
+
+# ------------------------------------------------------------------ C02 / C16
+POT_TIER = {
+    "quick": dict(mc=[dict(NPs="{2,3,4}", MaxC="3", MaxS="2")], enum=dict(n="2,3,4", cmax=3, smax=2, random=400), engine_runs=500, fork_runs=0),
+    "thorough": dict(mc=[dict(NPs="{2,3,4}", MaxC="4", MaxS="3"), dict(NPs="{5}", MaxC="3", MaxS="2"), dict(NPs="{6}", MaxC="2", MaxS="2")],
+                     enum=dict(n="2,3,4,5", cmax=3, smax=2, random=20000), engine_runs=8000, fork_runs=300),
+}
+
+
+def pots_check(prop, tier, seed, work, replay):
+    t0 = time.time()
+    T = POT_TIER[tier]
+    binary = vlib.build_harness(work)
+    if replay:
+        desc = json.load(open(replay))
+        if desc.get("kind") in ("script", "explore"):
+            return ec.run_replay_file(prop, work, binary, replay)
+        d = work.sub("replay")
+        inp = os.path.join(d, "in.ndjson")
+        open(inp, "w").write(json.dumps(desc["input"]) + "\n")
+        out = os.path.join(d, "out.ndjson")
+        vlib.drive(binary, ["pots-one", "-in", inp, "-o", out])
+        r = vlib.validate(work, [out], "PotTrace.tla", [prop], nchunks=1, heap="2g", independent=True)
+        if r["viol"]:
+            print("VIOLATION property=%s replay=%s" % (prop, replay))
+            return 1
+        print("replay of %s: no clause of %s fails" % (replay, prop))
+        return 0
+
+    inv = "C16Holds" if prop == "C16" else "C02Holds"
+    mcs = [generic_mc(work, "MCPots.tla", "mcpots%d" % i, sc, invariants=[inv]) for i, sc in enumerate(T["mc"])]
+    for m in mcs:
+        if not m["ok"]:
+            print("MODEL-NOTE: %s violated in the MODEL (%s): not a verdict (R1)" % (prop, m["violated"]))
+
+    # package level: every vector of the scope (every insertion order up to 4 players) + seeded random ones
+    d = work.sub("pots")
+    pfile = os.path.join(d, "pots.ndjson")
+    e = T["enum"]
+    pst = vlib.drive(binary, ["pots-enum", "-n", e["n"], "-cmax", e["cmax"], "-smax", e["smax"], "-random", e["random"], "-seed", seed,
+                              "-o", pfile, "-what", "pots,settle" if prop == "C02" else "pots"], timeout=3600)
+    pres = vlib.validate(work, [pfile], "PotTrace.tla", [prop], nchunks=max(4, vlib.NCPU // 2), heap="3g", independent=True)
+    log("[val] package level: %d lines, %d failed clauses, %d drift, %.0fs" % (pres["lines"], len(pres["viol"]), len(pres["drift"]), pres["tlc_s"]))
+
+    # engine level: the pots / results real play publishes
+    dr = ec.Drive(work, binary)
+    dr.random("random", T["engine_runs"], seed * 1000 + 5, [], runbase=0)
+    dr.explore("explore", ec.CMP_SCOPE)
+    simfile = os.path.join(dr.d, "sim.scripts")
+    nsim = ec.sim_scripts(work, 150 if tier == "quick" else 2000, seed, simfile, 5000000)
+    dr.replay("sim", simfile, finish=True, seed=seed)
+    eres = vlib.validate(work, sorted(dr.files), "HoldemTrace.tla", [prop], nchunks=max(4, vlib.NCPU // 2), heap="3g")
+    log("[val] engine level: %d lines, %d failed clauses, %d drift, %.0fs" % (eres["lines"], len(eres["viol"]), len(eres["drift"]), eres["tlc_s"]))
+
+    def sig(v, line, rs):
+        if "state" in (line or {}):
+            return v["clause"] + "|engine"
+        return v["clause"] + "|package|n=%s" % (line or {}).get("n")
+
+    def repro(v, line, rs):
+        if "state" in (line or {}):
+            return ec.reproduce(prop, work, binary, v, dr.files[v["src"]], line, rs)
+        dd = work.sub("repro")
+        inp = os.path.join(dd, "in.ndjson")
+        open(inp, "w").write(json.dumps(line) + "\n")
+        out = os.path.join(dd, "out.ndjson")
+        vlib.drive(binary, ["pots-one", "-in", inp, "-o", out])
+        r = vlib.validate(work, [out], "PotTrace.tla", [prop], nchunks=1, heap="2g", independent=True)
+        again = [x for x in r["viol"] if x["clause"] == v["clause"]]
+        return bool(again), dict(kind="pots", clause=v["clause"], input={k: line[k] for k in ("kind", "c", "f", "s", "order") if k in line},
+                                 observed={k: line[k] for k in ("pots", "chg") if k in line})
+
+    viols = pres["viol"] + eres["viol"]
+    rc, nviol, known_hit = verdict.judge(prop, tier, seed, viols, sig, repro,
+                                         group_key=lambda v: (v["src"], v["srcline"] if v["src"] == pfile else v["resetline"], v["clause"]))
+    drift = len(pres["drift"]) + len(eres["drift"])
+    if drift:
+        print("MODEL-DRIFT: %d recorded calls/steps are not reproduced by the precise model; not a verdict" % drift)
+    samples = [x for x in vlib.read_lines(pfile, 1, 40000) if x["n"] >= 3][-3:]
+    cnt = dict(pres["cnt"])
+    closed = eres["cnt"].get("C01.result", 0)
+    cnt.update({"engine.GameClosed": closed, "engine.RoundClosed": eres["cnt"].get("C01.pots", 0)})
+    coverage = {
+        "states": sum(m["distinct"] for m in mcs), "transitions": sum(m["generated"] for m in mcs),
+        "traces_validated_against_impl": int(pres["lines"] + eres["cnt"].get("runs", 0)),
+        "samples": samples,
+        "model_checking": mc_summary(mcs),
+        "package_level": {"inputs": pst.get("inputs"), "calls_validated": pres["lines"], "exhaustive_scope": e,
+                          "note": "every contribution/fold%s vector of the scope, every insertion order up to 4 players" % ("/strength" if prop == "C02" else "")},
+        "engine_level": {"steps_validated": eres["lines"], "hands_closed": closed, "tlc_scripts": nsim},
+        "antecedents_exercised_on_real_code": cnt,
+        "model_drift_lines": drift, "known_findings_hit": known_hit,
+        "failed_clauses": sorted({v["clause"] for v in viols}),
+        "exhaustive": False,
+    }
+    vlib.write_evidence(prop, tier, seed, coverage, time.time() - t0, nviol,
+                        assumptions=["harness projections drv_pots.go / proj_holdem.go", "TLC + CommunityModules Json",
+                                     "strength 0 is reserved for folded players (as the engine does)"])
+    need = ["settle.tie", "settle.mergedLevels", "settle.foldedContribution"] if prop == "C02" else ["pots.merged", "pots.threeOrMore"]
+    missing = [a for a in need if cnt.get(a, 0) == 0] + ([] if closed else ["engine.GameClosed"])
+    if rc == 0 and missing:
+        print("INCONCLUSIVE property=%s never exercised: %s" % (prop, ",".join(missing)))
+        return 2
+    return rc
+
+
+REGISTRY["C02"] = pots_check
+REGISTRY["C16"] = pots_check
